@@ -638,6 +638,19 @@ fn run_inner(sc: &J) -> Result<Option<String>, String> {
             if got != want { return Ok(Some(format!("Rabin after finalize_reset = {:02x?}, specification says {:02x?}", got, want))); }
             Ok(None)
         }
+        // C12: the canonical form of `text` is exactly `expect` (written by hand from the specification's rules: [PRIMITIVES],
+        // [FULLNAMES], [STRIP], [ORDER], [STRINGS], [INTEGERS], [WHITESPACE]); its fingerprints are those of that text
+        "canonical_expect" => {
+            let text = sc["text"].as_str().ok_or("text")?;
+            let expect = sc["expect"].as_str().ok_or("expect")?;
+            let schema = Schema::parse_str(text).map_err(|e| format!("{text}: {e}"))?;
+            let got = schema.canonical_form();
+            if got != expect { return Ok(Some(format!("canonical form of {text} is {got}, the specification's rules give {expect}"))); }
+            let fp = schema.fingerprint::<apache_avro::rabin::Rabin>().bytes;
+            let want = rf::crc64avro(expect.as_bytes()).to_le_bytes().to_vec();
+            if fp != want { return Ok(Some(format!("Rabin fingerprint {:02x?} is not CRC-64-AVRO of the canonical form ({:02x?})", fp, want))); }
+            match Schema::parse_str(&got) { Ok(again) if again.canonical_form() == got => Ok(None), other => Ok(Some(format!("canonical form {got} does not round-trip: {:?}", other.map(|s| s.canonical_form())))) }
+        }
         "single_object_header" => {
             let schema = Schema::parse_str(sc["schema"].as_str().ok_or("schema")?).map_err(|e| e.to_string())?;
             let canon = schema.canonical_form();
@@ -683,8 +696,9 @@ fn run_inner(sc: &J) -> Result<Option<String>, String> {
                 let _ = serde_json::to_string(&schema).map_err(|e| e.to_string())?;
                 let _ = format!("{schema:?}");
                 match Schema::parse_str(&canon) {
-                    // (logical types are excluded here: their canonical form is the recorded known finding D14 under C12)
-                    Ok(again) => if again.canonical_form() != canon && !text.contains("logicalType") { return Ok(Some(format!("canonical form is not a fixed point: {canon} -> {}", again.canonical_form()))); },
+                    // (in the accept/reject catalogue of C11 logical types are excluded from this comparison: their canonical form is the
+                    // recorded known finding D14 under C12, whose own replay — a schema_ops scenario without `expect` — still checks it)
+                    Ok(again) => if again.canonical_form() != canon && !(sc.get("expect").is_some() && text.contains("logicalType")) { return Ok(Some(format!("canonical form is not a fixed point: {canon} -> {}", again.canonical_form()))); },
                     Err(e) => return Ok(Some(format!("canonical form {canon} of an accepted schema does not parse: {e}"))),
                 }
             }
